@@ -23,6 +23,10 @@ func propC01(c *Ctx) propInfo {
 	c.hasherState()
 	c.levelMaskAlgebra() // hashes stored by other serialisers are indexed by the same mask functions
 	c.bocDepthLimitsAgree()
+	c.bocPrefixFlags()
+	c.bocWidthCeil()
+	c.parserDepthBound()
+	c.visitMarkers()
 	if f := c.mustFn("E1.P6-forward-refs", "boc", "DeserializeBoc"); f != nil {
 		env := &e1env{cfg: e1cfg{maxDepth: 0, exc: excC07}, ci: &callIndex{}, reach: map[*ssa.Function]bool{}}
 		c.forwardLinks(f, env)
@@ -30,7 +34,10 @@ func propC01(c *Ctx) propInfo {
 	c.floor("E8.crc", 3)
 	c.floor("E11.magic", 2)
 	c.floor("E10.dedup", 3)
-	c.floor("E5.boc-header", 7)
+	c.floor("E5.boc-header", 9)
+	c.floor("E11.prefix-flags", 4)
+	c.floor("E1.P5-depth-compute", 2)
+	c.floor("E1.P5-memo", 2)
 	c.floor("E7.descriptors", 5)
 	c.floor("E1.P6-forward-refs", 1)
 	return propInfo{
